@@ -5,7 +5,7 @@ from vlib.runner import reraise_if_timeout
 from props import c03_evaluate as c03
 
 ID = "C09"
-CASES = {"quick": 800, "thorough": 60000}
+CASES = {"quick": 400, "thorough": 60000}
 SOFT = 60
 HARD = 300
 RULE = ("case = (grammar, closed tree, two constraints f and g from the C03 generator, flag 'nary'); the ISLa formula "
